@@ -1,5 +1,6 @@
 import TracklibVerif.Model.Raster
 import TracklibVerif.Gen.Raster
+import TracklibVerif.Gen.Utils
 /-! Tie for C19: `Raster.getCell` translated from the CURRENT `tracklib/core/raster.py` equals the model's
 `TV.Raster.getCell`.
 
@@ -44,4 +45,519 @@ theorem tie_getCell (floor trunc : α → Int) (g : Raster.Grid α) (x y : α)
             by_cases hc : Py.feq idx ((g.ncol : Int) : α) = true <;> simp [hc, hi']
 end
 
+/-! ## The cell operators of `core/utils.py` (`co_sum`, `co_min`, `co_max`, `co_count`, `co_avg`, `co_median`)
+
+The generated definitions `Gen.Utils.co_*` are polymorphic in the scalar and test NaN by `isnan x = !(x == x)`. The model
+(`Model/Raster.lean`) represents the values of a cell as a `List (Option α)`, `none` standing for NaN. The ties instantiate
+the generated definitions at the NaN-EXTENDED scalar `Nan α` (`Option α` with IEEE-like operations: arithmetic with a NaN
+operand is NaN, every comparison with a NaN operand is false), so that `isnan none = true` and, for `a ≤ a`,
+`isnan (some a) = false`; the result of the code is then the model's value on ALL lists (no exception is raised).
+Common hypothesis `hle : ∀ x : α, x ≤ x`: `α` is the NON-NaN part of the scalar (true of the non-NaN doubles and of an
+ordered field). -/
+
+/-- GENERAL (could live in the prelude): `for i in range(len(l)): v = l[i]; f v` is `for v in l: f v`, for every body
+that starts by reading `l[i]` and does not use `i` otherwise -/
+theorem forList_range_getIdx_aux {β σ ρ : Type} (l : List β) (f : β → σ → M (Ctl σ ρ)) (body : Int → σ → M (Ctl σ ρ))
+    (h : ∀ i s, body i s = Py.bind (Py.getIdx l i) (fun v => f v s)) (suf pre : List β) (hl : l = pre ++ suf) (s : σ) :
+    Py.forList body (Py.range (pre.length : Int) (Py.len l)) s = Py.forList f suf s := by
+  induction suf generalizing pre s with
+  | nil =>
+    rw [Py.range_empty (by subst hl; simp [Py.len])]; rfl
+  | cons x xs ih =>
+    have hlt : (pre.length : Int) < Py.len l := by subst hl; simp [Py.len]; omega
+    have hget : l[pre.length]? = some x := by subst hl; simp
+    rw [Py.range_cons hlt, Py.forList_cons, Py.forList_cons, h, Py.getIdx_natCast, Py.getItem_eq_ok hget, Py.bind_ok]
+    cases hb : f x s with
+    | error e => rfl
+    | ok c =>
+      cases c with
+      | cont s1 =>
+        have := ih (pre ++ [x]) (by rw [hl]; simp) s1
+        simp only [List.length_append, List.length_cons, List.length_nil, Int.natCast_add] at this
+        exact this
+      | brk s1 => rfl
+      | ret r => rfl
+
+/-- GENERAL (could live in the prelude): `for i in range(len(l)): v = l[i]; …` is the loop over the elements of `l` -/
+theorem forList_range_getIdx {β σ ρ : Type} (l : List β) (f : β → σ → M (Ctl σ ρ)) (body : Int → σ → M (Ctl σ ρ))
+    (h : ∀ i s, body i s = Py.bind (Py.getIdx l i) (fun v => f v s)) (s : σ) :
+    Py.forList body (Py.range 0 (Py.len l)) s = Py.forList f l s :=
+  forList_range_getIdx_aux l f body h l [] rfl s
+
+/-- the scalar `α` extended with one NaN (`none`): arithmetic with a NaN operand is NaN, every comparison with a NaN
+operand is false -/
+def Nan (α : Type) := Option α
+
+namespace Nan
+variable {α : Type}
+def lift2 (f : α → α → α) : Nan α → Nan α → Nan α
+  | some x, some y => some (f x y)
+  | some _, none => none
+  | none, _ => none
+def rel (r : α → α → Prop) : Nan α → Nan α → Prop
+  | some x, some y => r x y
+  | some _, none => False
+  | none, _ => False
+def decRel (r : α → α → Prop) [d : ∀ a b, Decidable (r a b)] : ∀ a b, Decidable (rel r a b)
+  | some x, some y => d x y
+  | some _, none => isFalse (fun h => h)
+  | none, _ => isFalse (fun h => h)
+instance [Add α] : Add (Nan α) := ⟨lift2 (· + ·)⟩
+instance [Sub α] : Sub (Nan α) := ⟨lift2 (· - ·)⟩
+instance [Mul α] : Mul (Nan α) := ⟨lift2 (· * ·)⟩
+instance [Div α] : Div (Nan α) := ⟨lift2 (· / ·)⟩
+instance [LE α] : LE (Nan α) := ⟨rel (· ≤ ·)⟩
+instance [LT α] : LT (Nan α) := ⟨rel (· < ·)⟩
+instance [LE α] [d : DecidableLE α] : DecidableLE (Nan α) := decRel (· ≤ ·) (d := d)
+instance [LT α] [d : DecidableLT α] : DecidableLT (Nan α) := decRel (· < ·) (d := d)
+instance {n : Nat} [OfNat α n] : OfNat (Nan α) n := ⟨some (OfNat.ofNat n)⟩
+instance [IntCast α] : IntCast (Nan α) := ⟨fun k => some (k : α)⟩
+instance [OfScientific α] : OfScientific (Nan α) := ⟨fun m s e => some (OfScientific.ofScientific m s e)⟩
+
+/-- `some a` / `none` with the type `Nan α` (for the elaborator; they unfold reducibly) -/
+abbrev num (a : α) : Nan α := Option.some a
+abbrev nan : Nan α := Option.none
+@[elab_as_elim] theorem casesOn' {motive : Nan α → Prop} (v : Nan α) (nan : motive nan) (num : ∀ a, motive (num a)) : motive v :=
+  match v with
+  | none => nan
+  | some a => num a
+theorem feq_num [LE α] [DecidableLE α] (a b : α) : Py.feq (num a) (num b) = Py.feq a b := rfl
+theorem feq_nan_left [LE α] [DecidableLE α] (b : Nan α) : Py.feq nan b = false := rfl
+theorem isnan_nan [LE α] [DecidableLE α] : Gen.Utils.isnan (nan : Nan α) = .ok true := rfl
+theorem isnan_num [LE α] [DecidableLE α] (a : α) (h : a ≤ a) : Gen.Utils.isnan (num a) = .ok false := by
+  show Except.ok (!(decide (a ≤ a) && decide (a ≤ a))) = _
+  simp [h]
+theorem lt_num [LT α] [DecidableLT α] (a b : α) : decide (num a < num b) = decide (a < b) := rfl
+theorem le_num [LE α] [DecidableLE α] (a b : α) : decide (num a ≤ num b) = decide (a ≤ b) := rfl
+theorem zero_eq [OfNat α 0] : (0 : Nan α) = num 0 := rfl
+theorem add_num [Add α] (a b : α) : num a + num b = num (a + b) := rfl
+end Nan
+
+/-- GENERAL (could live in the prelude): a `for i in range(len(l)): val = l[i]; …` loop whose body always ends normally is a left fold over `l` -/
+theorem forList_range_getIdx_foldl {β σ ρ : Type} (l : List β) (step : σ → β → σ) (body : Int → σ → M (Ctl σ ρ))
+    (h : ∀ i s, body i s = Py.bind (Py.getIdx l i) (fun v => .ok (.cont (step s v)))) (s : σ) :
+    Py.forList body (Py.range 0 (Py.len l)) s = .ok (.done (l.foldl step s)) := by
+  rw [forList_range_getIdx l (fun v s => .ok (.cont (step s v))) body h s]
+  exact Py.forList_eq_foldl _ step l s (fun _ _ _ => rfl)
+
+section
+variable {α : Type}
+open Nan
+
+/-- `co_sum(tarray)` on a list with NaNs is `some (coSum l)` (never NaN, never an exception).
+Hypothesis: `hle` — `≤` is reflexive on the non-NaN scalars. -/
+theorem tie_co_sum [Add α] [OfNat α 0] [LE α] [DecidableLE α] (l : List (Option α)) (hle : ∀ x : α, x ≤ x) :
+    Gen.Utils.co_sum (α := Nan α) l = .ok (some (Raster.coSum l)) := by
+  revert l; intro (l : List (Nan α))
+  unfold Gen.Utils.co_sum
+  simp only []
+  have h1 : ∀ body : Int → Nan α → Py.M (Py.Ctl (Nan α) (Nan α)), _ → Py.forList body (Py.range 0 (Py.len l)) 0 = _ :=
+    fun body h => forList_range_getIdx_foldl l
+      (fun (t : Nan α) (v : Nan α) => match v with | none => t | some a => t + num a) body h 0
+  rw [h1 _ ?spec]
+  case spec =>
+    intro i s
+    cases Py.getIdx l i with
+    | error e => rfl
+    | ok v =>
+      cases v using Nan.casesOn' with
+      | nan => simp only [Nan.isnan_nan, Py.bind_ok, if_true]
+      | num a => simp only [Nan.isnan_num a (hle a), Py.bind_ok, Bool.false_eq_true, if_false]
+  simp only [Py.bind_ok]
+  unfold Raster.coSum
+  show Except.ok (List.foldl _ (num 0) l) = _
+  rw [List.foldl_hom (f := (num : α → Nan α)) (g₁ := fun s (v : Nan α) => match v with | none => s | some a => s + a)]
+  · rfl
+  · intro x y; cases y using Nan.casesOn' <;> rfl
+
+
+/-- `co_min(tarray)` is the model's `coMin` (`none` = the function returns NaN: empty list or only NaNs).
+Hypothesis: `hle` — `≤` is reflexive on the non-NaN scalars. -/
+theorem tie_co_min [LT α] [DecidableLT α] [LE α] [DecidableLE α] (l : List (Option α)) (hle : ∀ x : α, x ≤ x) :
+    Gen.Utils.co_min (α := Nan α) (nan := none) l = .ok (Raster.coMin l) := by
+  revert l; intro (l : List (Nan α))
+  unfold Gen.Utils.co_min
+  simp only []
+  have h1 : ∀ body : Int → Nan α → Py.M (Py.Ctl (Nan α) (Nan α)), _ → Py.forList body (Py.range 0 (Py.len l)) nan = _ :=
+    fun body h => forList_range_getIdx_foldl l
+      (fun (m : Nan α) (v : Nan α) => match v with
+        | none => m
+        | some a => match m with
+          | none => num a
+          | some b => if a < b then num a else num b) body h nan
+  rw [h1 _ ?spec]
+  case spec =>
+    intro i s
+    cases Py.getIdx l i with
+    | error e => rfl
+    | ok v =>
+      cases v using Nan.casesOn' with
+      | nan => simp only [Nan.isnan_nan, Py.bind_ok, if_true]
+      | num a =>
+        simp only [Nan.isnan_num a (hle a), Py.bind_ok, Bool.false_eq_true, if_false]
+        cases s using Nan.casesOn' with
+        | nan => simp only [Nan.isnan_nan, Py.bind_ok, Bool.true_or, if_true]
+        | num b =>
+          simp only [Nan.isnan_num b (hle b), Py.bind_ok, Bool.false_or, Nan.lt_num, decide_eq_true_eq]
+          by_cases hab : a < b
+          · simp only [hab, if_true]
+          · simp only [hab, if_false]
+  simp only [Py.bind_ok]
+  by_cases h0 : Py.len l ≤ 0
+  · have : l = [] := by
+      cases l with
+      | nil => rfl
+      | cons x xs => simp [Py.len] at h0; omega
+    subst this; rfl
+  · simp only [h0, decide_false, Bool.false_eq_true, if_false]
+    rfl
+
+
+/-- `co_max(tarray)` is the model's `coMax` (`none` = NaN). Hypothesis: `hle`. -/
+theorem tie_co_max [LT α] [DecidableLT α] [LE α] [DecidableLE α] (l : List (Option α)) (hle : ∀ x : α, x ≤ x) :
+    Gen.Utils.co_max (α := Nan α) (nan := none) l = .ok (Raster.coMax l) := by
+  revert l; intro (l : List (Nan α))
+  unfold Gen.Utils.co_max
+  simp only []
+  have h1 : ∀ body : Int → Nan α → Py.M (Py.Ctl (Nan α) (Nan α)), _ → Py.forList body (Py.range 0 (Py.len l)) nan = _ :=
+    fun body h => forList_range_getIdx_foldl l
+      (fun (m : Nan α) (v : Nan α) => match v with
+        | none => m
+        | some a => match m with
+          | none => num a
+          | some b => if b < a then num a else num b) body h nan
+  rw [h1 _ ?spec]
+  case spec =>
+    intro i s
+    cases Py.getIdx l i with
+    | error e => rfl
+    | ok v =>
+      cases v using Nan.casesOn' with
+      | nan => simp only [Nan.isnan_nan, Py.bind_ok, if_true]
+      | num a =>
+        simp only [Nan.isnan_num a (hle a), Py.bind_ok, Bool.false_eq_true, if_false]
+        cases s using Nan.casesOn' with
+        | nan => simp only [Nan.isnan_nan, Py.bind_ok, Bool.true_or, if_true]
+        | num b =>
+          simp only [Nan.isnan_num b (hle b), Py.bind_ok, Bool.false_or, Nan.lt_num, decide_eq_true_eq]
+          by_cases hab : b < a
+          · simp only [hab, if_true]
+          · simp only [hab, if_false]
+  simp only [Py.bind_ok]
+  by_cases h0 : Py.len l ≤ 0
+  · have : l = [] := by
+      cases l with
+      | nil => rfl
+      | cons x xs => simp [Py.len] at h0; omega
+    subst this; rfl
+  · simp only [h0, decide_false, Bool.false_eq_true, if_false]
+    rfl
+
+/-- the counting fold is `coCount` -/
+theorem foldl_count (l : List (Nan α)) (c : Int) :
+    l.foldl (fun (c : Int) (v : Nan α) => match v with | none => c | some _ => c + 1) c = c + (Raster.coCount l : Nat) := by
+  induction l generalizing c with
+  | nil => simp [Raster.coCount]
+  | cons x xs ih =>
+    cases x using Nan.casesOn' with
+    | nan => exact ih c
+    | num a =>
+      rw [List.foldl_cons]
+      show List.foldl _ (c + 1) xs = c + ((Raster.coCount xs + 1 : Nat) : Int)
+      rw [ih]; omega
+
+/-- `co_count(tarray)` is the model's `coCount` (number of non-NaN values), as a Python int. Hypothesis: `hle`. -/
+theorem tie_co_count [LE α] [DecidableLE α] (l : List (Option α)) (hle : ∀ x : α, x ≤ x) :
+    Gen.Utils.co_count (α := Nan α) l = .ok ((Raster.coCount l : Nat) : Int) := by
+  revert l; intro (l : List (Nan α))
+  unfold Gen.Utils.co_count
+  simp only []
+  have h1 : ∀ body : Int → Int → Py.M (Py.Ctl Int Int), _ → Py.forList body (Py.range 0 (Py.len l)) 0 = _ :=
+    fun body h => forList_range_getIdx_foldl l
+      (fun (c : Int) (v : Nan α) => match v with | none => c | some _ => c + 1) body h 0
+  rw [h1 _ ?spec]
+  case spec =>
+    intro i s
+    cases Py.getIdx l i with
+    | error e => rfl
+    | ok v =>
+      cases v using Nan.casesOn' with
+      | nan => simp only [Nan.isnan_nan, Py.bind_ok, if_true]
+      | num a => simp only [Nan.isnan_num a (hle a), Py.bind_ok, Bool.false_eq_true, if_false]
+  simp only [Py.bind_ok, foldl_count, Int.zero_add]
+
+
+/-- the (sum, count) fold of `co_avg` -/
+theorem foldl_avg [Add α] (l : List (Nan α)) (s : α) (c : Int) :
+    l.foldl (fun (p : Nan α × Int) (v : Nan α) => match v with | none => p | some a => (p.1 + num a, p.2 + 1)) (num s, c)
+      = (num (l.foldl (fun s (v : Nan α) => match v with | none => s | some a => s + a) s), c + (Raster.coCount l : Nat)) := by
+  induction l generalizing s c with
+  | nil => simp [Raster.coCount]
+  | cons x xs ih =>
+    cases x using Nan.casesOn' with
+    | nan => exact ih s c
+    | num a =>
+      rw [List.foldl_cons, List.foldl_cons]
+      show List.foldl _ (num (s + a), c + 1) xs = (_, c + ((Raster.coCount xs + 1 : Nat) : Int))
+      rw [ih]; congr 1; omega
+
+/-- `co_avg(tarray)` is the model's `coAvg` (`none` = NaN: empty list or only NaNs); no `ZeroDivisionError`.
+Hypotheses: `hle`; `hcast` — converting a non-negative Python int to a float (`IntCast`, what the code does with `count`)
+is the model's `NatCast`; `hnz` — a positive count converted to a float is not `== 0` (both true of doubles and of an
+ordered field of characteristic 0). -/
+theorem tie_co_avg [Add α] [Div α] [OfNat α 0] [IntCast α] [NatCast α] [LE α] [DecidableLE α] (l : List (Option α))
+    (hle : ∀ x : α, x ≤ x) (hcast : ∀ n : Nat, ((n : Int) : α) = (n : α))
+    (hnz : ∀ n : Nat, n ≠ 0 → ¬ Py.feq (((n : Int) : α)) 0 = true) :
+    Gen.Utils.co_avg (α := Nan α) (nan := none) l = .ok (Raster.coAvg l) := by
+  revert l; intro (l : List (Nan α))
+  unfold Gen.Utils.co_avg
+  simp only []
+  have h1 : ∀ body : Int → Nan α × Int → Py.M (Py.Ctl (Nan α × Int) (Nan α)), _ → Py.forList body (Py.range 0 (Py.len l)) (num 0, 0) = _ :=
+    fun body h => forList_range_getIdx_foldl l
+      (fun (p : Nan α × Int) (v : Nan α) => match v with | none => p | some a => (p.1 + num a, p.2 + 1)) body h (num 0, 0)
+  rw [Nan.zero_eq, h1 _ ?spec]
+  case spec =>
+    intro i s
+    cases Py.getIdx l i with
+    | error e => rfl
+    | ok v =>
+      cases v using Nan.casesOn' with
+      | nan => simp only [Nan.isnan_nan, Py.bind_ok, if_true]
+      | num a => simp only [Nan.isnan_num a (hle a), Py.bind_ok, Bool.false_eq_true, if_false]
+  simp only [Py.bind_ok, foldl_avg, Int.zero_add]
+  unfold Raster.coAvg
+  by_cases h0 : Py.len l ≤ 0
+  · have : l = [] := by
+      cases l with
+      | nil => rfl
+      | cons x xs => simp [Py.len] at h0; omega
+    subst this; rfl
+  · have hl : ¬ @List.length (Option α) l = 0 := by
+      intro h; apply h0; show ((@List.length (Option α) l : Nat) : Int) ≤ 0; omega
+    simp only [h0, decide_false, Bool.false_eq_true, if_false]
+    rw [if_neg hl]
+    by_cases hc : Raster.coCount l = 0
+    · rw [hc]; simp only [Int.natCast_zero, decide_true, if_true]
+    · have hc' : ¬ ((Raster.coCount l : Nat) : Int) = 0 := by omega
+      simp only [hc', decide_false, Bool.false_eq_true, if_false]
+      rw [if_neg hc]
+      show Py.bind (if Py.feq (((Raster.coCount l : Nat) : Int) : α) 0 = true then _ else _) _ = _
+      rw [if_neg (hnz _ hc)]
+      show Except.ok (some (_ / (((Raster.coCount l : Nat) : Int) : α))) = _
+      rw [hcast]; rfl
+
+end
+
+/-! ### `co_median` -/
+section
+variable {α : Type}
+open Nan
+
+theorem foldl_nonNaN (l : List (Nan α)) (acc : List (Nan α)) :
+    l.foldl (fun (acc : List (Nan α)) (v : Nan α) => match v with | none => acc | some a => acc ++ [num a]) acc
+      = acc ++ (Raster.nonNaN l).map num := by
+  induction l generalizing acc with
+  | nil => show acc = acc ++ List.map num []; simp
+  | cons x xs ih =>
+    cases x using Nan.casesOn' with
+    | nan => exact ih acc
+    | num a =>
+      rw [List.foldl_cons]
+      show List.foldl _ (acc ++ [num a]) xs = acc ++ List.map num (a :: Raster.nonNaN xs)
+      rw [ih]; simp
+
+theorem innerMin [LE α] [DecidableLE α] {ρ : Type} (body : Nan α → Nan α → M (Ctl (Nan α) ρ))
+    (h : ∀ v m, body (num v) (num m) = .ok (.cont (if v ≤ m then num v else num m))) (arr : List α) (a : α) :
+    Py.forList body (arr.map num) (num a) = .ok (.done (num (Raster.lastMin a arr))) := by
+  induction arr generalizing a with
+  | nil => rfl
+  | cons x xs ih =>
+    rw [List.map_cons, Py.forList_cons_cont (h x a)]
+    by_cases hx : x ≤ a
+    · rw [if_pos hx, ih]; simp [Raster.lastMin, hx]
+    · rw [if_neg hx, ih]; simp [Raster.lastMin, hx]
+
+theorem lastMin_mem [LE α] [DecidableLE α] (a : α) (l : List α) : Raster.lastMin a l = a ∨ Raster.lastMin a l ∈ l := by
+  induction l generalizing a with
+  | nil => exact .inl rfl
+  | cons x xs ih =>
+    have e : Raster.lastMin a (x :: xs) = Raster.lastMin (if x ≤ a then x else a) xs := rfl
+    rw [e]
+    rcases ih (if x ≤ a then x else a) with h | h
+    · rw [h]
+      by_cases hx : x ≤ a
+      · rw [if_pos hx]; exact .inr List.mem_cons_self
+      · rw [if_neg hx]; exact .inl rfl
+    · exact .inr (List.mem_cons_of_mem _ h)
+
+theorem removeFirst_erase [LE α] [DecidableLE α] [BEq α] (hbeq : ∀ a b : α, (a == b) = Py.feq a b) (hle : ∀ x : α, x ≤ x)
+    (arr : List α) (m : α) (hm : m ∈ arr) :
+    Py.removeFirst Py.feq (arr.map num) (num m) = .ok ((arr.erase m).map num) ∧ (arr.erase m).length + 1 = arr.length := by
+  induction arr with
+  | nil => exact nomatch hm
+  | cons x xs ih =>
+    rw [List.map_cons, List.erase_cons, hbeq]
+    by_cases hx : Py.feq x m = true
+    · simp only [Py.removeFirst, Nan.feq_num, hx, if_true, List.length_cons, and_self]
+    · have hne : m ≠ x := by
+        intro e; subst e; apply hx; simp [Py.feq, hle]
+      have hm' : m ∈ xs := by
+        rcases List.mem_cons.mp hm with h | h
+        · exact absurd h hne
+        · exact h
+      obtain ⟨h1, h2⟩ := ih hm'
+      simp only [Py.removeFirst, Nan.feq_num, hx, h1, List.map_cons, List.length_cons, h2, if_false, Bool.false_eq_true, and_self]
+
+
+/-- what is left of the array after `k` rounds of the selection sort -/
+def selRest [LE α] [DecidableLE α] [BEq α] : Nat → List α → List α
+  | 0, l => l
+  | _ + 1, [] => []
+  | k + 1, a :: r => selRest k ((a :: r).erase (Raster.lastMin a (a :: r)))
+
+theorem lastMin_mem_self [LE α] [DecidableLE α] (a : α) (r : List α) : Raster.lastMin a (a :: r) ∈ a :: r := by
+  rcases lastMin_mem a (a :: r) with h | h
+  · rw [h]; exact List.mem_cons_self
+  · exact h
+
+/-- the selection-sort loop of `co_median` (the loop index is not used by the body) -/
+theorem sortLoop [LE α] [DecidableLE α] [BEq α] {ρ : Type} (hbeq : ∀ a b : α, (a == b) = Py.feq a b) (hle : ∀ x : α, x ≤ x)
+    (body : Int → List (Nan α) × List (Nan α) → M (Ctl (List (Nan α) × List (Nan α)) ρ))
+    (h : ∀ i a r tab, body i ((a :: r).map num, tab) =
+      .ok (.cont (((a :: r).erase (Raster.lastMin a (a :: r))).map num, tab ++ [num (Raster.lastMin a (a :: r))])))
+    (is : List Int) (arr : List α) (tab : List (Nan α)) (hlen : is.length ≤ arr.length) :
+    Py.forList body is (arr.map num, tab)
+      = .ok (.done ((selRest is.length arr).map num, tab ++ (Raster.selSort is.length arr).map num)) := by
+  induction is generalizing arr tab with
+  | nil => simp [selRest, Raster.selSort]
+  | cons i is ih =>
+    cases arr with
+    | nil => simp at hlen
+    | cons a r =>
+      rw [Py.forList_cons_cont (h i a r tab)]
+      have hl := (removeFirst_erase hbeq hle (a :: r) _ (lastMin_mem_self a r)).2
+      rw [ih _ _ (by simp only [List.length_cons] at hlen hl; omega)]
+      simp [selRest, Raster.selSort]
+
+theorem length_selSort [LE α] [DecidableLE α] [BEq α] (hbeq : ∀ a b : α, (a == b) = Py.feq a b) (hle : ∀ x : α, x ≤ x)
+    (k : Nat) (arr : List α) (hk : k ≤ arr.length) : (Raster.selSort k arr).length = k := by
+  induction k generalizing arr with
+  | zero => rfl
+  | succ k ih =>
+    cases arr with
+    | nil => simp at hk
+    | cons a r =>
+      have hl := (removeFirst_erase hbeq hle (a :: r) _ (lastMin_mem_self a r)).2
+      simp only [Raster.selSort, List.length_cons]
+      rw [ih _ (by simp only [List.length_cons] at hk hl; omega)]
+
+theorem length_range0 (n : Nat) : (Py.range 0 (n : Int)).length = n := by
+  unfold Py.range; rw [Py.length_rangeFrom]; omega
+
+theorem getIdx_map_num (tab : List α) (k : Nat) (hk : k < tab.length) :
+    Py.getIdx (tab.map num) (k : Int) = .ok (num tab[k]) := by
+  rw [Py.getIdx_natCast]
+  apply Py.getItem_eq_ok
+  simp [hk]
+
+
+theorem getItem_map_cons (a : α) (r : List α) : Py.getItem ((a :: r).map num) 0 = .ok (num a) := rfl
+
+/-- `int(x)` on the NaN-extended scalar (`int(nan)` raises in Python; it is never evaluated on a NaN by `co_median`) -/
+def truncNan (trunc0 : α → Int) : Nan α → Int
+  | some x => trunc0 x
+  | none => 0
+
+/-- `co_median(tarray)` is the model's `coMedian` (`none` = NaN); no `IndexError` / `ValueError` (`list.remove`).
+`int(·)` on the NaN-extended scalar is `truncNan trunc0` (it is only ever applied to non-NaN values here).
+Hypotheses: `hbeq` — the model's `==` (used by `List.erase`) is Python's float `==` (`Py.feq`); `hle` — `≤` reflexive on the
+non-NaN scalars (so that `valmin` is found by `remove`); `htr` — `int(float(k) / 2) = k // 2` for a natural `k`;
+`htr1` — `int(float(k) / 2 - 1) = k // 2 - 1` for an EVEN natural `k` (for `k = 1` truncation gives `0`, not `-1`; the code
+only evaluates it for even `n`); `hhalf` — the literal `0.5` is `1 / 2` (the model writes `1 / 2`). -/
+theorem tie_co_median [Add α] [Sub α] [Mul α] [Div α] [LE α] [DecidableLE α] [IntCast α] [OfScientific α] [OfNat α 1] [OfNat α 2]
+    [BEq α] (trunc0 : α → Int) (l : List (Option α))
+    (hbeq : ∀ a b : α, (a == b) = Py.feq a b) (hle : ∀ x : α, x ≤ x)
+    (htr : ∀ k : Nat, trunc0 (((k : Int) : α) / 2) = ((k / 2 : Nat) : Int))
+    (htr1 : ∀ k : Nat, k % 2 = 0 → trunc0 (((k : Int) : α) / 2 - 1) = ((k / 2 : Nat) : Int) - 1)
+    (hhalf : (0.5 : α) = 1 / 2) :
+    Gen.Utils.co_median (α := Nan α) (nan := none) (trunc := truncNan trunc0) l = .ok (Raster.coMedian l) := by
+  revert l; intro (l : List (Nan α))
+  unfold Gen.Utils.co_median
+  simp only []
+  have h1 : ∀ body : Int → List (Nan α) → Py.M (Py.Ctl (List (Nan α)) (Nan α)), _ → Py.forList body (Py.range 0 (Py.len l)) [] = _ :=
+    fun body h => forList_range_getIdx_foldl l
+      (fun (acc : List (Nan α)) (v : Nan α) => match v with | none => acc | some a => acc ++ [num a]) body h []
+  rw [h1 _ ?spec]
+  case spec =>
+    intro i s
+    cases Py.getIdx l i with
+    | error e => rfl
+    | ok v =>
+      cases v using Nan.casesOn' with
+      | nan => simp only [Nan.isnan_nan, Py.bind_ok, if_true]
+      | num a => simp only [Nan.isnan_num a (hle a), Py.bind_ok, Bool.false_eq_true, if_false]
+  simp only [Py.bind_ok, foldl_nonNaN, List.nil_append]
+  unfold Raster.coMedian
+  by_cases h0 : Py.len l ≤ 0
+  · have : l = [] := by
+      cases l with
+      | nil => rfl
+      | cons x xs => simp [Py.len] at h0; omega
+    subst this; rfl
+  · have hl : ¬ @List.length (Option α) l = 0 := by
+      intro h; apply h0; show ((@List.length (Option α) l : Nat) : Int) ≤ 0; omega
+    simp only [h0, decide_false, Bool.false_eq_true, if_false]
+    rw [if_neg hl]
+    generalize Raster.nonNaN l = arr
+    clear h1 h0 hl l
+    have hlen : Py.len (List.map num arr) = (arr.length : Int) := by simp [Py.len]
+    rw [hlen]
+    by_cases hn : arr.length = 0
+    · simp [hn]
+    · have hn' : ¬ (arr.length : Int) = 0 := by omega
+      simp only [hn', decide_false, Bool.false_eq_true, if_false]
+      rw [if_neg hn]
+      have hs : ∀ body : Int → List (Nan α) × List (Nan α) → Py.M (Py.Ctl (List (Nan α) × List (Nan α)) (Nan α)), _ →
+          Py.forList body (Py.range 0 (arr.length : Int)) (List.map num arr, []) = _ :=
+        fun body h => sortLoop hbeq hle body h (Py.range 0 (arr.length : Int)) arr []
+          (by rw [length_range0]; exact Nat.le_refl _)
+      rw [hs _ ?spec2]
+      case spec2 =>
+        intro i a r tab
+        simp only [getItem_map_cons, Py.bind_ok]
+        have hi : ∀ body' : Nan α → Nan α → Py.M (Py.Ctl (Nan α) (Nan α)), _ →
+            Py.forList body' (List.map num (a :: r)) (num a) = _ := fun body' h => innerMin body' h (a :: r) a
+        rw [hi _ ?spec3]
+        case spec3 =>
+          intro v m
+          simp only [Nan.le_num]
+          by_cases hvm : v ≤ m
+          · simp only [hvm, decide_true, if_true]
+          · simp only [hvm, decide_false, Bool.false_eq_true, if_false]
+        simp only [(removeFirst_erase hbeq hle (a :: r) _ (lastMin_mem_self a r)).1, Py.bind_ok]
+      simp only [Py.bind_ok, length_range0, List.nil_append]
+      clear hs
+      have hlen2 := length_selSort hbeq hle arr.length arr (Nat.le_refl _)
+      generalize Raster.selSort arr.length arr = tab at hlen2 ⊢
+      generalize arr.length = n at *
+      rw [Int.fmod_eq_emod_of_nonneg _ (by omega)]
+      by_cases hodd : n % 2 = 1
+      · have ho : (n : Int) % 2 = 1 := by omega
+        have e1 : (n : Int) - 1 = ((n - 1 : Nat) : Int) := by omega
+        have e2 : truncNan trunc0 ((((n : Int) - 1 : Int) : Nan α) / 2) = (((n - 1) / 2 : Nat) : Int) := by
+          rw [e1]; exact htr (n - 1)
+        simp only [ho, decide_true, if_true]
+        rw [if_pos hodd, e2, getIdx_map_num tab _ (by omega), Py.bind_ok, List.getElem?_eq_getElem (by omega)]
+      · have ho : ¬ (n : Int) % 2 = 1 := by omega
+        have e2 : truncNan trunc0 (((n : Int) : Nan α) / 2) = ((n / 2 : Nat) : Int) := htr n
+        have e3 : truncNan trunc0 (((n : Int) : Nan α) / 2 - 1) = ((n / 2 - 1 : Nat) : Int) := by
+          show trunc0 (((n : Int) : α) / 2 - 1) = _
+          rw [htr1 n (by omega)]; omega
+        simp only [ho, decide_false, Bool.false_eq_true, if_false]
+        rw [if_neg hodd, e2, e3, getIdx_map_num tab _ (by omega), Py.bind_ok, getIdx_map_num tab _ (by omega), Py.bind_ok,
+          List.getElem?_eq_getElem (by omega), List.getElem?_eq_getElem (by omega)]
+        show Except.ok (some ((0.5 : α) * _)) = _
+        rw [hhalf]; rfl
+
+end
 end TV.Tie.C19
